@@ -14,13 +14,12 @@ Mirrors the Rust *as it is*:
   the first narrow one that does not fit `i16` inserts its instruction index into `wide` and restarts (`continue 'a`);
 * then `code_length` must be in 1..=65535.
 
-Restriction of the domain (stated, not hidden): instructions are the set below (everything except `invokedynamic`
-and `ldc` of method handles / method types / dynamic constants, which need the BootstrapMethods attribute); every instruction `k`
+Restriction of the domain (stated, not hidden): instructions are the set below (all of `Instruction`); every instruction `k`
 carries the label `k`, the last label is `n = instructions.len()`; any other label number is an unknown label.
 `ldc` is given the pool index `PoolWrite::put_loadable` returns (the put is idempotent, see `Thm.C02.pool_put_idem`).
 
 Unchecked `u16`/`i32` arithmetic of the Rust (overflow checks on) is an explicit `Fail.panic`:
-`opcode_pos + 1 + 2` in `if_helper` (lines 470/482), `high - low + 1` in the `tableswitch` arm (line 928), `size += 1|2` in `get_arguments_size` (descriptor.rs:354/367),
+`opcode_pos + 1 + 2` in `if_helper` (lines 470/482), `high - low + 1` in the `tableswitch` arm (line 928),
 `end - start` in `Labels::try_get_range` (labels.rs:43).
 -/
 
@@ -70,6 +69,8 @@ inductive Insn where
   | invokeinterface (idx : Nat) (desc : JStr)
   | newarray (atype : Nat)
   | multianewarray (idx : Nat) (dims : Nat)
+  /-- `idx` = the `InvokeDynamic` pool entry `put_invoke_dynamic` returned -/
+  | invokedynamic (idx : Nat)
   deriving DecidableEq, Repr
 
 inductive Fail where
@@ -134,7 +135,7 @@ def skipBrackets : List Nat → List Nat
   | c :: cs => if c = 91 then skipBrackets cs else c :: cs
   | [] => []
 
-/-- the loop of `get_arguments_size`; `fuel` ≥ number of characters. `size += …` on a `u8` is unchecked: `panic` above 255 -/
+/-- the loop of `get_arguments_size`; `fuel` ≥ number of characters. `size.checked_add(…)` on a `u8`: error above 255 -/
 def argsLoop : Nat → List Nat → Nat → Except Fail Nat
   | 0, _, _ => .error .err
   | fuel + 1, cs, size =>
@@ -143,7 +144,7 @@ def argsLoop : Nat → List Nat → Nat → Except Fail Nat
     | c :: rest =>
       if c = 41 then .ok size
       else if c = 68 ∨ c = 74 then
-        if size + 2 > 255 then .error .panic else argsLoop fuel rest (size + 2)
+        if size + 2 > 255 then .error .err else argsLoop fuel rest (size + 2)
       else
         match skipBrackets (c :: rest) with
         | [] => .error .err
@@ -151,8 +152,8 @@ def argsLoop : Nat → List Nat → Nat → Except Fail Nat
           if c' = 76 then
             match skipClass rest' with
             | none => .error .err
-            | some rest'' => if size + 1 > 255 then .error .panic else argsLoop fuel rest'' (size + 1)
-          else if size + 1 > 255 then .error .panic else argsLoop fuel rest' (size + 1)
+            | some rest'' => if size + 1 > 255 then .error .err else argsLoop fuel rest'' (size + 1)
+          else if size + 1 > 255 then .error .err else argsLoop fuel rest' (size + 1)
 
 def argsSize (desc : JStr) : Except Fail Nat :=
   match desc with
@@ -250,6 +251,7 @@ def encInsn (isWide : Bool) (lbl : Nat → Option Nat) (p k : Nat) : Insn → En
     | .ok c => .ok (0xb9 :: (u16b idx ++ [c, 0]), [])
   | .newarray a => .ok ([0xbc, a], [])
   | .multianewarray idx d => .ok (0xc5 :: (u16b idx ++ [d]), [])
+  | .invokedynamic idx => .ok (0xba :: (u16b idx ++ [0, 0]), [])
 
 /-! ## one attempt -/
 
